@@ -86,7 +86,7 @@ def handle (args : List String) : Option String :=
     -- `history_independent` say the caches cannot change that — the only admissible answer
     some "consistent\tconsistent\t-"
   | op :: world :: self :: narch :: rest =>
-    if op != "r.resolve" && op != "r.avail" && op != "r.corr" then none else
+    if op != "r.resolve" && op != "r.avail" && op != "r.corr" && op != "r.corr-any-err" then none else
     match readArchs narch.toNat! rest with
     | some (archs, [go]) =>
       match lookupT archs (str self) with
@@ -96,7 +96,15 @@ def handle (args : List String) : Option String :=
         let dq0 := disqualifyDifference archs (str self)
         let r := resolve (cfgOf u) w dq0
         let flags := match r with | .ok x => x.flags | _ => []
-        let impl := showRes r
+        -- BuildPackageLists reports no conflicts list and fails as a whole when one architecture fails
+        let anyErr := archs.any fun (a, ua) =>
+          match resolve (cfgOf ua) w (disqualifyDifference archs a) with | .ok _ => false | _ => true
+        let impl :=
+          if op = "r.corr-any-err" then (if anyErr then "err" else showRes r)
+          else if go.endsWith "|" && (match r with | .ok x => !x.conflicts.isEmpty | _ => false) then
+            -- answer without a conflicts list (e2e): compare the install list only
+            match r with | .ok x => showRes (.ok { x with conflicts := [] }) | _ => showRes r
+          else showRes r
         match parseGo u go with
         | none =>
           -- an error is always an admissible answer; differing answers on repeated runs are not (C08)
